@@ -633,6 +633,25 @@ func c09EoiProbe() (ok bool, got string) {
 	return res == "0:1", res
 }
 
+// c09Explicit emits one case with the given texts only (no enumeration).
+func c09Explicit(c *Ctx, s c09Set, texts [][2]string) {
+	comp, _ := c09Compile(s)
+	if comp == nil {
+		return
+	}
+	var m, tx []string
+	for _, x := range texts {
+		var sc int
+		fmt.Sscan(x[0], &sc)
+		res, _ := c09Scan(comp.t, sc, x[1])
+		m = append(m, res)
+		tx = append(tx, x[0]+":"+hexs([]byte(x[1])))
+	}
+	line := comp.rules + " " + c24TablesLine(comp.t) + " x 0 - " + strings.Join(tx, " ")
+	answer := fmt.Sprintf("wf=1 classes=1 dfa=ok m=%s s=%s xm=- xs=-", strings.Join(m, ","), strings.Join(m, ","))
+	c.Case(line, answer, line)
+}
+
 func c09(c *Ctx) {
 	r := c.Rng
 	findings := os.Getenv("VERIF_FINDINGS") != ""
@@ -644,7 +663,7 @@ func c09(c *Ctx) {
 		"(literals incl. non-ASCII, classes, negated classes, \\w \\d \\s \\p{..}, '.', groups, alternation, * + ? {n} {n,m} {n,}, (?i:..), named patterns {name} that may use other named patterns, {eoi}); " +
 		"Precedence 0 / -1 for class rules / random -2..2, shared actions, 1-3 start conditions with random membership, fold option, byte mode (1/4), backtracking allowed (9/10); " +
 		"parsed by the real lex.ParseRegexp, compiled by the real lex.Compile (rule sets it rejects are counted and skipped). " +
-		"Texts per rule set: the empty text in every start condition and random walks through the real DFA (code points picked at the start / end / inside of a segment of the symbol map), " +
+		"Texts per rule set: (empty character classes such as [^\\x00-\\x{10ffff}] are not generated: known minor defect [C09-dead-state], shown under VERIF_FINDINGS=1) the empty text in every start condition and random walks through the real DFA (code points picked at the start / end / inside of a segment of the symbol map), " +
 		"continued past token ends, with arbitrary characters, invalid UTF-8 (lone continuation bytes, truncated sequences, overlong forms, surrogates, > U+10FFFF) and raw bytes injected; " +
 		"plus every string of up to L class representatives (L as large as fits the budget, <= 5) in every start condition. " +
 		"Go answers: the real Tables.Scan on every text. Non-trivial = at least 2 DFA states; distinct by rules+texts."
@@ -653,9 +672,23 @@ func c09(c *Ctx) {
 		c.Notes = append(c.Notes, note)
 		if findings {
 			c.Violate("[C09-eoi-shift] "+note, "rules /a/=>2 /{eoi}/=>1 text \"\"")
+			c09Explicit(c, c09Set{rules: []c09Rule{{pattern: "a", action: 2, scs: []int{0}}, {pattern: "{eoi}", action: 1, scs: []int{0}}}, backtracking: true},
+				[][2]string{{"0", ""}, {"0", "a"}, {"0", "b"}})
 		} else {
 			c.Rule += " AVOIDED CLASS (known defect, probe failed; VERIF_FINDINGS=1 includes and flags it): texts at whose end the DFA has a transition (or checkpoint) on end of input, i.e. an {eoi} of some rule could match there."
 		}
+	}
+	if findings {
+		// [C09-dead-state] an empty character class leaves a DFA state from which no rule can match: the invalid
+		// token is one character longer than "the longest prefix some rule could still extend".
+		ds := c09Set{rules: []c09Rule{{pattern: `a[^\x00-\x{10ffff}]b`, action: 2, scs: []int{0}}, {pattern: "c", action: 3, scs: []int{0}}}, backtracking: true}
+		if comp, _ := c09Compile(ds); comp != nil {
+			if res, _ := c09Scan(comp.t, 0, "ab"); res != "0:0" {
+				c.Violate("[C09-dead-state] rules /a[^\\x00-\\x{10ffff}]b/=>2 /c/=>3: Scan(0, \"ab\") returned "+res+
+					", the property demands 0:0 (no rule can extend \"a\": the class is empty, but the DFA keeps a transition on 'a' into a state without continuations)", "rules /a[^\\x00-\\x{10ffff}]b/=>2 /c/=>3 text \"ab\"")
+			}
+		}
+		c09Explicit(c, ds, [][2]string{{"0", "ab"}, {"0", "a"}, {"0", "c"}})
 	}
 	n := c.N(260, 2600)
 	budget := c.N(250, 3000) // enumerated strings per rule set
